@@ -567,12 +567,20 @@ def gen_poll_program(poll):
                 return (f'{pad}match cfg with\n{pad}| none => (st, some Py.Exn.exc)\n'
                         f'{pad}| some cfg => updateNewConfigE st refused {POLL_ARGS[args[0]]} {POLL_ARGS[args[1]]} cfg')
         raise Untranslatable('LongPoll.poll: arm outside the subset: ' + '; '.join(ast.unparse(x)[:60] for x in real))
+    # what is evaluated between the request being built and `stub.poll` being entered (its arguments): a failure there
+    # (e.g. `self.grpc.metadata()` raising) leaves `poll` before any request reaches the stub
+    pre_calls = [ast.unparse(n.func) for a in list(s_resp.value.args) + [k.value for k in s_resp.value.keywords]
+                 for n in ast.walk(a) if isinstance(n, ast.Call)]
+    pre_calls += [ast.unparse(n.func) for n in ast.walk(s_req.value) if isinstance(n, ast.Call) and n is not s_req.value]
     reads = ast.unparse(disp.test)
     if not reads.startswith('response.'):
         raise Untranslatable('LongPoll.poll: the dispatch does not start by reading the answer')
     return ('/-- what `stub.poll(request, …)` does: raises, hands back something that is not a PollResponse (reading\n'
             '    `response_type` off it raises AttributeError, an `Exception`), or an answer -/\n'
-            'inductive StubOut where\n  | raises (e : Py.Exn)\n  | garbage\n'
+            'inductive StubOut where\n'
+            '  /-- something evaluated before `stub.poll` is entered raises (' + ', '.join(sorted(set(pre_calls))) + '):\n'
+            '      no request reaches the stub -/\n'
+            '  | beforeSend (e : Py.Exn)\n  | raises (e : Py.Exn)\n  | garbage\n'
             '  | answer (rt : RespType) (ts : Int) (h : String)\nderiving Repr, DecidableEq\n\n'
             '/-- `LongPoll.poll`, statement by statement: the state it leaves and the exception that leaves it.\n'
             '    The request (carrying `requestHash st`) is built and sent first; `cfg` is\n'
@@ -580,8 +588,13 @@ def gen_poll_program(poll):
             '    uses it; `refused` is what `submit_task` raises when the task handler is closed. -/\n'
             'def pollOnce (st : Svc) (refused : Option Py.Exn) (out : StubOut) (cfg : Option (List Trig)) : '
             'Svc × Option Py.Exn :=\n'
-            '  match out with\n  | .raises e => (st, some e)\n  | .garbage => (st, some Py.Exn.exc)\n'
-            '  | .answer rt ts h =>\n' + arm([disp], 4) + '\n')
+            '  match out with\n  | .beforeSend e => (st, some e)\n  | .raises e => (st, some e)\n'
+            '  | .garbage => (st, some Py.Exn.exc)\n'
+            '  | .answer rt ts h =>\n' + arm([disp], 4) + '\n\n'
+            '/-- does the request reach the stub (is `current_hash` reported) -/\n'
+            'def StubOut.sendsRequest : StubOut → Bool\n  | .beforeSend _ => false\n  | _ => true\n\n'
+            '/-- calls evaluated after the request was built and before `stub.poll` is entered -/\n'
+            f'def pollPreSendCalls : List String := [{", ".join(lean_str(c) for c in sorted(set(pre_calls)))}]\n')
 
 
 def gen_timer_skeleton(utils, poll):
@@ -602,6 +615,7 @@ def gen_timer_skeleton(utils, poll):
     sdb = strip_doc(sd.body)
     stops = (len(sdb) >= 1 and isinstance(sdb[0], ast.If) and ast.unparse(sdb[0].test) == 'self.timer'
              and [ast.unparse(x) for x in sdb[0].body] == ['self.timer.stop()'] and not sdb[0].orelse)
+    # the calls of the loop test that stand outside every `try` of the loop body
     return ('/-- `RepeatedTimer._target` as a guard skeleton (harness/skeleton.py): the calls of the loop test come first\n'
             '    in the loop body (and once more after the loop, for the test that ends it) -/\n'
             'def timerSkeleton : Guard.Stmt :=\n' + skeleton.to_lean(sk, 2) + '\n\n'
